@@ -129,7 +129,14 @@ def rule_is_solved(ctx: Ctx, prog: Program) -> None:
         if okk:
             ctx.ok("R-SOLVED", "is_solved compares MIN and MAX of all shared domains at the current level")
         else:
-            ctx.violation("R-SOLVED", fn.path, "is_solved", "all-domains", fn.loc(),
+            construct = "all-domains"
+            if len(eqs) == 1 and len(eqs[0].args) == 2:
+                a, b = as_view(eqs[0].args[0]), as_view(eqs[0].args[1])
+                if isinstance(a, View) and isinstance(b, View) and a.root == st_ and b.root == st_ and a.idx and b.idx and (a.idx[0] != T or b.idx[0] != T):
+                    # another level than the current one; the root level is a superset of every level above it (what is ground there is ground
+                    # everywhere): solutions are then never recognised (C02 / C03), but nothing invalid is reported
+                    construct = "wrong-level:root" if (a.idx[0] == K(0) and b.idx[0] == K(0)) else "wrong-level"
+            ctx.violation("R-SOLVED", fn.path, "is_solved", construct, fn.loc(),
                           "is_solved must compare MIN and MAX of every shared domain at level stacks_top[0]")
     ctx.floor("R-SOLVED:paths", len(res), 1)
 
